@@ -229,7 +229,7 @@ class _Parser(Generic[EXPR]):
 
     def consume_mandatory_end_parentheses(self) -> None:
         self.parser.consume_mandatory_constant_string_that_must_be_unquoted_and_equal(
-            [')', ] + self._infix_op_names(),
+            [')', ],
             lambda x: None,
             'Expression inside ( )',
         )
